@@ -9,9 +9,11 @@ import (
 	"errors"
 	"fmt"
 	"math/big"
+	mrand "math/rand"
 	"net"
 	"sync"
 	"testing"
+	"testing/cryptotest"
 	"time"
 
 	"github.com/btcsuite/btcd/btcec/v2"
@@ -308,6 +310,10 @@ func containsBytes(h, n []byte) bool {
 func Exec(t *testing.T, pa any, col *kernel.Collector) []kernel.Violation {
 	p := pa.(*DiscPlan)
 	var vs []kernel.Violation
+	// handshake nonces, ephemeral keys and EIP-8 padding come from crypto/rand:
+	// the plan owns them (stream offsets of the injected faults depend on them)
+	cryptotest.SetGlobalRandom(t, HashPlan(p))
+	mrand.Seed(int64(HashPlan(p) >> 1)) // the EIP-8 padding length is drawn from math/rand
 	chainsim.Bubble(t, func() {
 		switch p.Mode {
 		case "rlpx":
